@@ -17,7 +17,7 @@
 From Coq Require Import List Arith Bool ZArith Permutation.
 From TK Require Import Conn_Model Conn_Spec Conn_Proof Conn_Proof_Main Conn_Proof_Order
      Conn_Proof_Dijkstra Conn_Proof_Knn Conn_Proof_Sym Conn_Proof_Consumer Conn_Proof_Methods
-     Conn_Proof_Ties.
+     Conn_Proof_Ties Conn_Proof_Stack.
 From TK Require Dijkstra_Model Dijkstra_Spec Dijkstra_Proof_Base Knn_Spec Knn_Brute_Model Knn_VpTree_Model
      Knn_VpTree_Proof Knn_CoverSel_Model.
 Import ListNotations.
@@ -375,6 +375,35 @@ Theorem cc_covertree_end_to_end_partial : forall (d : Knn_Spec.dist) N cands,
 Proof. exact main_cc_covertree_partial. Qed.
 Print Assumptions cc_covertree_end_to_end_partial.
 
+(* ---- the stack-depth obligation of connected.hpp.  is_connected_fixed_hw is is_connected_fixed with a
+        high-water mark of the explicit DFS stack (nothing else changed: first component = the model, for ALL
+        inputs); the explicit stack never holds more than one entry per list entry plus one, for ANY lists (also
+        on runs that end out of range).  The model's loop is tail-iterative, so this heap-allocated stack is the
+        only memory that grows with the input: no call-stack depth is needed.  That connected.hpp is written
+        that way (no function calling itself) is tied by the check's 10^6-sample path/cycle run under an 8 MiB
+        stack limit and its source scan, not proved ---- *)
+Theorem dfs_stack_bounded : forall N nb,
+  fst (is_connected_fixed_hw N nb) = is_connected_fixed N nb /\
+  snd (is_connected_fixed_hw N nb) <= total_len nb + 1.
+Proof. exact main_stack_bounded. Qed.
+Print Assumptions dfs_stack_bounded.
+
+(* N lists of k entries (what every neighbour search returns): at most N*k + 1 <= N*(k+1) + 1 entries *)
+Theorem dfs_stack_bounded_uniform : forall N k nb,
+  wf_graph N nb -> (forall row, In row nb -> length row = k) ->
+  snd (is_connected_fixed_hw N nb) <= N * k + 1 /\ N * k + 1 <= N * (k + 1) + 1.
+Proof. exact main_stack_bounded_uniform. Qed.
+Print Assumptions dfs_stack_bounded_uniform.
+
+(* the same for the search loop in any state and any row selection that does not lengthen a row (old code
+   included): stack + lists of the unvisited samples is a potential that never grows *)
+Theorem dfs_loop_stack_potential : forall sel N adj, sel_short sel ->
+  forall fuel stack visited nv hw B,
+  hw <= B -> length stack + Conn_Proof_Dfs.pot visited adj <= B ->
+  snd (dfs_loop_hw sel N adj fuel stack visited nv hw) <= B.
+Proof. exact dfs_loop_hw_bound. Qed.
+Print Assumptions dfs_loop_stack_potential.
+
 (* the boolean oracles the harness applies to the implementation's own output *)
 Theorem spec_oracles : forall N nb, 0 < N -> wf_b N nb = true ->
   (strong_b N nb = true <-> strongly_connected N nb) /\
@@ -445,3 +474,12 @@ Example hyps_ties_satisfiable :
   boundary_free_b (pdist tied5_pts) 5 3 = false /\
   (forall j, rows_unique (pdist tied5_pts) 5 (kseq 5 4 j)).
 Proof. exact nv_ties. Qed.
+
+(* path 0 -> 1 -> .. -> 63 (a recursive search would nest 64 activations): the explicit stack holds 1 entry;
+   the two-way chain: 2 entries; and the hypotheses of dfs_stack_bounded_uniform / dfs_loop_stack_potential hold *)
+Example hyps_stack_satisfiable :
+  is_connected_fixed_hw 64 (path_graph 64) = (COk false, 1) /\
+  is_connected_fixed_hw 64 (chain_graph 64) = (COk true, 2) /\
+  wf_graph 64 (chain_graph 64) /\ (forall row, In row (chain_graph 64) -> length row = 2) /\
+  sel_short sel_all.
+Proof. exact nv_stack. Qed.
